@@ -412,7 +412,7 @@ func TestProp(t *testing.T) {
 			runGrid(s, run, g, seeds)
 		})
 
-	run.Check("common", 240000, 3000000,
+	run.Check("common", 240000, 2000000,
 		"RollCommon on random tuples: times up to 2000, sides up to 2^62 (times*sides < 2^62), keep/drop counts 1..times+1, min/max within 1..sides+1 with min <= max, random/min/max roll mode, random PCG seed; same oracle as grid; "+ntRule,
 		func(t *rapid.T, s *rt.Section) {
 			c := drawCommon(t)
@@ -472,7 +472,7 @@ func TestProp(t *testing.T) {
 	if run.Env.Thorough() {
 		maxWork = 100000
 	}
-	run.Check("pools", 300000, 4000000,
+	run.Check("pools", 300000, 2500000,
 		"RollWoD / RollDoubleCross on legal tuples only (pool 1..20000, add line 0 or >= 2 (DC >= 2), sides >= 1 up to 2^40, threshold >= 1, >= or <= test) with expected dice pool*sides/(addLine-1) bounded; groups parsed: first round = pool, next round = number of <> dice, * and <> marks recomputed per die, successes = #*, dice total = sum of sizes, DC result = 10*(rounds-1) + highest die of the last round; abbreviated texts (pool >= 15 or > 100 dice) are held to the consistency of the returned numbers only; "+ntRule,
 		func(t *rapid.T, s *rt.Section) {
 			c := drawPool(t, s, maxWork)
@@ -500,7 +500,7 @@ func TestProp(t *testing.T) {
 			s.Report(t, f)
 		})
 
-	run.Check("vm", 40000, 500000,
+	run.Check("vm", 40000, 400000,
 		"expressions of 1..4 items (dice terms of every family, integer literals) joined by + - *, run on a seeded VM; every dice term's DetailSpans entry is located by its byte span, its Tag/Ret/Text judged by the same rule oracles with parameters evaluated from the source (literals, parenthesised sums, nested dice terms read from their own spans, chains whose count is the previous term's value, 优势/劣势, default sides, upper-case letters), and vm.Ret must equal the arithmetic over the term values; "+ntRule,
 		func(t *rapid.T, s *rt.Section) {
 			c := drawVMCase(t, s)
@@ -521,8 +521,8 @@ func TestProp(t *testing.T) {
 			s.Report(t, f)
 		})
 
-	run.Check("illegal", 16000, 200000,
-		"a legal expression in which one parameter of one dice term is replaced by an illegal value (times/sides/keep-drop count <= 0 or not an integer; WoD/DC pool outside 1..20000, add line 1 or negative (DC also 0), sides < 1, threshold < 1), written as literal, parenthesised or computed operand; Run must return an error (no value, no panic); every case is non-trivial; distinct by source",
+	run.Check("illegal", 16000, 150000,
+		"a legal expression in which one parameter of one dice term is replaced by an illegal value (times/sides/keep-drop count <= 0 or not an integer; WoD/DC pool outside 1..20000, add line 1 or negative (DC also 0), sides < 1, threshold < 1, any of them not an integer; CoC dice count negative or not an integer), written as literal, parenthesised or computed operand; Run must return an error (no value, no panic); every case is non-trivial; distinct by source",
 		func(t *rapid.T, s *rt.Section) {
 			c := drawIllegalCase(t, s)
 			s.Eval()
@@ -571,18 +571,8 @@ func TestReplay(t *testing.T) {
 			if err := json.Unmarshal(b, &c); err != nil {
 				return bad(s, err)
 			}
-			// Double Cross ignores the VM's seeded source (it rolls on the package generator), so a
-			// case that contains a DC term is not a function of its seed: give it several attempts.
-			n := 1
-			if c.hasKind("dc") {
-				n = 400
-			}
-			for i := 0; i < n; i++ {
-				if f, _ := checkVM(c, s); f != nil {
-					return f
-				}
-			}
-			return nil
+			f, _ := checkVM(c, s)
+			return f
 		},
 		"illegal": func(b []byte, s *rt.Section) *rt.Failure {
 			var c IllegalCase
